@@ -72,10 +72,11 @@ def showRef (t : Ty) (v : Val) : String :=
   | .anyStruct, v | .anyResource, v => q (tyId v.ty)
   | _, _ => "?"
 
-def insertSorted (x : Nat × String) : List (Nat × String) → List (Nat × String)
+def insertStr (x : String) : List String → List String
   | [] => [x]
-  | y :: ys => if x.1 ≤ y.1 then x :: y :: ys else y :: insertSorted x ys
-def sortByPath (xs : List (Nat × String)) : List String := (xs.foldr insertSorted []).map (·.2)
+  | y :: ys => if x ≤ y then x :: y :: ys else y :: insertStr x ys
+/-- the harness sorts the rendered elements as strings -/
+def sortStrs (xs : List String) : List String := xs.foldr insertStr []
 
 def showObs (op : Op) : Obs → String
   | .saved => q "sv"
@@ -95,8 +96,8 @@ def showObs (op : Op) : Obs → String
   | .bool b => toString b
   | .ty none => "nil"
   | .ty (some t) => q (tyId t)
-  | .paths ps => "[" ++ " ".intercalate (sortByPath (ps.map fun p => (p, s!"/storage/p{p}"))) ++ "]"
-  | .entries es => "[" ++ " ".intercalate (sortByPath (es.map fun e => (e.1, s!"/storage/p{e.1}={tyId e.2}"))) ++ "]"
+  | .paths ps => "[" ++ " ".intercalate (sortStrs (ps.map fun p => s!"/storage/p{p}")) ++ "]"
+  | .entries es => "[" ++ " ".intercalate (sortStrs (es.map fun e => s!"/storage/p{e.1}={tyId e.2}")) ++ "]"
 
 def showAbort : Abort → String
   | .overwrite => "overwrite" | .mismatch => "mismatch" | .panic => "panic"
@@ -161,10 +162,12 @@ def judge (op : List String) (go : String) : Verdict :=
     match parseHist h with
     | none => .skip "bad-op"
     | some hist =>
-      let (_, obs) := runHist [] hist
+      let (final, obs) := runHist [] hist
+      let widest := [0, 1, 2].foldl (fun m a => max m (paths final a).length) 0
       let rendered := (hist.zip obs).map fun (tx, o) => showTx tx o
       let model := "|".intercalate rendered
-      let tags := dedup ((hist.zip obs).flatMap fun (tx, o) => txTags tx o)
+      let tags := dedup ((if widest ≥ 16 then ["occupied>=16"] else if widest ≥ 4 then ["occupied>=4"] else ["occupied<4"])
+        ++ (hist.zip obs).flatMap fun (tx, o) => txTags tx o)
       if go == model then .ok ("!nt" :: tags)
       else
         let d := firstDiff hist rendered (go.splitOn "|")
